@@ -86,7 +86,7 @@ def run_trace(tid, n, cls, mode, hidden_f, objs, rng, length, with_gaps, ops_wei
         scale = 1
         while any(float(x) * scale != round(float(x) * scale) for x in hidden_f):
             scale *= 2
-            if scale > 1024:
+            if scale > 2 ** 44:
                 raise D.DriverError("hidden game is not dyadic")
         grid = None
         tol, tol2 = 0, 0
@@ -305,6 +305,8 @@ def main():
                 objs = [{"comp": "sac", "r": 0}] + [{"comp": "sam", "r": r} for r in reps]
             else:
                 raise SystemExit("unknown family")
+            if mode == "exact" and rng.random() < 0.12:
+                v = [x * 2.0 ** -30 for x in v]            # the same game at a very small magnitude (still exactly representable)
             length = a.length if not reveal_only else min(2 * len(D.explorable(n)) + 1, 2 * a.length + 1)
             w = (4, 2, 1, 3)
             gen = run_trace(tid, n, cls, mode, v, objs, rng, length, bool(a.gaps), w, reveal_only)
